@@ -120,14 +120,7 @@ func raceReplay(job raceJob) {
 			g.Point("be:" + step)
 		}
 	}
-	switch sc.Plan {
-	case "noread":
-		be.Plan = func(int) h.DataPlan { return h.DataPlan{Max: 0, KeepErr: true} }
-	case "statuses":
-		be.Plan = func(int) h.DataPlan {
-			return h.DataPlan{Max: -1, Status: []h.StatusCall{{Rcpt: "ok1@b.example", Err: nil}, {Rcpt: "ok2@b.example", Err: h.RejErr("ok2"), AfterRead: true}}}
-		}
-	}
+	be.Plan = c20Plan(sc)
 	log := &h.LogBuf{}
 	srv := h.Config{LMTP: sc.LMTP, MaxMessageBytes: sc.MaxBytes}.NewServer(be, log)
 	ln := &fakeListener{ch: make(chan interface{}, 16), closed: make(chan struct{})}
